@@ -86,6 +86,28 @@ theorem delete_counterexample :
         | none => false)
      | .error _ => false) = true := by decide
 
+/-- The part of the deletion clause that does hold: an instance issues a Delete only inside its own
+    `StopWithContext{DeleteKey}`, and only if that call found it leading or an acquiring write of it was acknowledged
+    since the call began — never as a follower that owned nothing (the seeded changes C01-2 / C02-1 break this guard and
+    are rejected by the acceptor at the Delete's call). -/
+theorem delete_only_in_owner_shutdown {s s' : State} {t op i exp : Nat} {key : String} {val : Val}
+    (h : stepCall s t op i .delete key exp val = .ok s') :
+    ∃ x, s.insts i = some x ∧ x.stopDel.isSome = true ∧ x.stopOwner = true ∧ key = x.cfg.key := by
+  unfold stepCall at h
+  split at h
+  · cases h
+  · rename_i x hx
+    split at h
+    · cases h
+    · split at h
+      · cases h
+      · rename_i hkey
+        simp only at h
+        split at h
+        · rename_i hg
+          exact ⟨x, hx, hg.1, hg.2, by simpa using hkey⟩
+        · cases h
+
 /-- What the model assumes about the code, as facts regenerated from the AST: the revision field is written only by
     `becomeLeader`, the heartbeat loop, `observeLeader` (which drops observations while leading) and the constructor;
     the heartbeat presents that field and re-checks the term after the health check; `Delete` is issued only by
